@@ -30,6 +30,7 @@ def boot():
     from Bio import BiopythonParserWarning
 
     warnings.filterwarnings("ignore", category=BiopythonParserWarning)
+    warnings.filterwarnings("ignore", message="Feature qualifier key .* is longer than maximum length")
     _done = True
 
 
